@@ -1252,9 +1252,10 @@ func (c *Conn) deletePending(id uint32) {
 	c.sendLck.Lock()
 	pb := c.pending[id]
 	delete(c.pending, id)
+	streamed := pb != nil && pb.stream != nil
 	c.sendLck.Unlock()
 
-	if pb == nil || pb.stream == nil {
+	if !streamed {
 		return
 	}
 
@@ -1318,9 +1319,12 @@ func (c *Conn) sendPending(id uint32) error {
 		// caller's code and may block for as long as it likes, so it does not
 		// run under the lock the read loop needs to hand window back.
 		if len(pb.body) == 0 && pb.stream != nil && !pb.drained {
+			// The reader is taken under the lock: a canceled request
+			// closes it, and forgets it, from the caller's goroutine.
+			stream := pb.stream
 			c.sendLck.Unlock()
 
-			if err := c.refillPending(pb); err != nil {
+			if err := c.refillPending(pb, stream); err != nil {
 				// The body cannot be finished, and the peer is part way
 				// through one it would otherwise wait for.
 				c.deletePending(id)
@@ -1401,7 +1405,7 @@ func (c *Conn) flushData(id uint32, body []byte, end bool) error {
 
 // refillPending pulls the next chunk of a streamed request body into the
 // body's own buffer.
-func (c *Conn) refillPending(pb *pendingBody) error {
+func (c *Conn) refillPending(pb *pendingBody, stream io.Reader) error {
 	// Read straight into the buffer the frames are cut from: going via a
 	// scratch buffer would copy every byte of the body a second time.
 	if cap(pb.buf) < int(defaultDataFrameSize) {
@@ -1410,7 +1414,7 @@ func (c *Conn) refillPending(pb *pendingBody) error {
 
 	buf := pb.buf[:defaultDataFrameSize]
 
-	n, err := pb.stream.Read(buf)
+	n, err := stream.Read(buf)
 	if n > 0 {
 		pb.body = buf[:n]
 		pb.read += int64(n)
@@ -1442,11 +1446,15 @@ func (c *Conn) refillPending(pb *pendingBody) error {
 // The caller must hold the Ctx: the Request stops being ours the moment
 // RoundTrip returns, and a caller that releases it closes the stream anyway.
 func (c *Conn) closeBodyStream(pb *pendingBody) {
-	if pb.stream == nil {
+	// The write loop and a caller canceling the request both get here.
+	c.sendLck.Lock()
+	open := pb.stream != nil
+	pb.stream = nil
+	c.sendLck.Unlock()
+
+	if !open {
 		return
 	}
-
-	pb.stream = nil
 
 	_ = pb.ctx.Request.CloseBodyStream()
 }
